@@ -657,3 +657,82 @@ def tr_pair(ctx, flavours, fams=BUILDERS, which=None):
                 why = '; '.join('%s: forward %s / transposed %s' % (k, so.get(k), si.get(k)) for k in sorted(set(so) | set(si)) if so.get(k) != si.get(k))
             out.append(Obl('TR-PAIR', Ki.q, F.where(Ki.b), 'transposed kernel %s follows the same discipline as %s (%s)' % (Ki.name, Ko.name, '+'.join(rest) or 'no other arm'), so == si, why))
     return out
+
+
+# ---------------------------------------------------------------------------------------------------------------------
+# OPT: option setters and constructors store what their public name says: Pfs::min -> Priority::Min, Pfs::max -> Priority::Max,
+# Node::preorder() -> an Order with Ordering::Pre, Node::postorder() -> Ordering::Post, order setters accordingly.
+def _enum_stores(F, b, enum_suffix):
+    """[(span, 'ctor'|'store', variant)] of values of the enum type (by suffix of its path) stored into the builder by b"""
+    adt = F.adts.get(b['impl_self_q'])
+    if not adt:
+        return []
+    idxs = [i for i, f in enumerate(adt['variants'][0]['fields']) if F.types[f['ty']]['s'].endswith(enum_suffix)]
+    if not idxs:
+        return []
+    ti = idxs[0]
+    pv = F.prov(b)
+    out = []
+    for bb in b['blocks']:
+        if bb['cleanup']:
+            continue
+        for s in bb['stmts']:
+            if s['k'] != 'assign':
+                continue
+            rv = s['rv']
+            term = None
+            kind = None
+            if rv['k'] == 'aggr' and rv['ak'] == 'adt:%s::%s' % (b['impl_self_q'], adt['variants'][0]['name']):
+                term, kind = pv.of_operand(rv['ops'][ti]), 'ctor'
+            elif s['dst']['p'] and s['dst']['p'][-1].split(':')[0] == '.%d' % ti:
+                lt = F.types[b['locals'][s['dst']['l']]]
+                owner = lt.get('p') or (F.types[lt['a'][0]].get('p') if lt.get('a') else None)
+                if owner == b['impl_self_q']:
+                    kind = 'store'
+                    term = ('aggr', rv['ak'], ()) if rv['k'] == 'aggr' else (pv.of_operand(rv['ops'][0]) if rv.get('ops') else ('?',))
+            if kind:
+                v = term[1].split('::')[-1] if isinstance(term, tuple) and term and term[0] == 'aggr' else pretty(term)
+                out.append((s['sp'], kind, v))
+    return out
+
+
+def opt_rules(ctx, flavours, what):
+    F = ctx.F
+    out = []
+    for fl in flavours:
+        if what == 'priority':
+            for q, b in sorted(F.bodies.items()):
+                if F.flavour(b) != fl or b['kind'] == 'Closure' or b['impl_trait'] or not b['impl_self_q'].endswith('::node::algo::pfs::Pfs'):
+                    continue
+                for sp, kind, v in _enum_stores(F, b, '::Priority'):
+                    if kind == 'store' or b['name'] in ('min', 'max'):
+                        want = {'min': 'Min', 'max': 'Max'}.get(b['name'])
+                        ok = want is not None and v == want
+                        out.append(Obl('OPT', q, sp, 'Pfs::%s stores the priority its name says' % b['name'], ok, 'stores Priority::%s' % v))
+            for name in ('min', 'max'):
+                if not any(o['func'] == '%s::node::algo::pfs::Pfs::%s' % (fl, name) for o in out):
+                    out.append(Obl('OPT', '%s::node::algo::pfs::Pfs::%s' % (fl, name), '-', 'Pfs::%s stores the priority its name says' % name, False, 'no store of a Priority found'))
+        if what == 'ordering':
+            ctor_of = {}
+            for q, b in sorted(F.bodies.items()):
+                if F.flavour(b) != fl or b['kind'] == 'Closure' or b['impl_trait'] or not b['impl_self_q'].endswith('::node::algo::order::Order'):
+                    continue
+                for sp, kind, v in _enum_stores(F, b, '::Ordering'):
+                    if kind == 'ctor':
+                        ctor_of[q] = (sp, v)
+                    else:
+                        want = 'Pre' if 'pre' in b['name'].lower() else ('Post' if 'post' in b['name'].lower() else None)
+                        out.append(Obl('OPT', q, sp, 'Order::%s stores the ordering its name says' % b['name'], want is not None and v == want, 'stores Ordering::%s' % v))
+            for name, want in (('preorder', 'Pre'), ('postorder', 'Post')):
+                nb = F.bodies.get('%s::node::Node::%s' % (fl, name))
+                if nb is None:
+                    # the undirected flavours expose order().pre() / .post() instead
+                    if not any(o['func'].startswith(fl + '::node::algo::order::Order::') and want.lower() in o['func'].split('::')[-1].lower() for o in out):
+                        out.append(Obl('OPT', '%s::node::Node::%s' % (fl, name), '-', 'Node::%s builds an Order with Ordering::%s' % (name, want), False, 'anchor missing'))
+                    continue
+                got = [ctor_of[t['res']] for bi, t in calls_in(nb, lambda t: t.get('local') and t.get('res') in ctor_of)]
+                own = [(sp, v) for sp, kind, v in _enum_stores(F, nb, '::Ordering')]
+                got += own
+                ok = len(got) == 1 and got[0][1] == want
+                out.append(Obl('OPT', nb['q'], nb['span'], 'Node::%s builds an Order with Ordering::%s' % (name, want), ok, 'builds %s' % [v for _, v in got]))
+    return out
